@@ -151,11 +151,11 @@ def cmd_check(pid, tier):
         streams += spec["streams"](tier, rng)
         for st in streams:
             sr = core.run_stream(st.name, st.mode, st.cases, st.nontrivial, st.hook, st.exhaustive, st.bounds,
-                                 st.hist_key, st.oracles, st.mode in core.FEED_IMPL_MODES)
+                                 st.hist_key, st.oracles, st.mode in core.FEED_IMPL_MODES, st.project)
             streams_done.append(sr)
             unknown = []
             for (c, a, b, classes, fails) in sr.oracle_fail:
-                agree = (a == core.strip_class(b))
+                agree = (st.project(a) == st.project(core.strip_class(b))) if st.project else (a == core.strip_class(b))
                 kc = [x for x in classes if x in known_classes]
                 if agree and kc:
                     for x in kc:
